@@ -145,9 +145,9 @@ prop('C04', COMMON +
      'the blocked caller stays registered until it leaves and retries to claim the queue after each wake-up (QD-waiters, ORD-C04-steal) and stops running jobs as soon as its own closure is through (ORD-C04-stop); it does not return before its lifetime-erased job is gone (UA-wait) and returns its own slot\'s value (ORD-C04-result); '
      'no lock cycle and nothing foreign or blocking under an internal lock (LO, BL); caller-side execution holds the token (TOK-exec).',
      ['strategy chosen atomically; waits only when the queue is owned or parked (TR-defer)', 'blocked caller cannot miss its wake-up (CV1, CV2, QD-waiters)', 'caller runs the queue itself when woken and it is claimable (ORD-C04-steal)', 'a caller running the queue re-tests its own completion before every further job, so it returns without running what is queued behind it (ORD-C04-stop)',
-      'own result, after completion (ORD-C04-result, UA-wait)', 'no lock-order cycle, no blocking/foreign code under an internal lock (LO, BL)', 'caller-side execution holds the token (TOK-exec)', 'caller-side parking: wake latched while polling, consumed before parking, unpark + re-check loop (PARK-wake, ORD-C06-drain)'],
+      'own result, after completion (ORD-C04-result, UA-wait)', 'the completion handshake (condition variable, ready flag) is created by the call and shared with nobody (ORD-C04-private)', 'no lock-order cycle, no blocking/foreign code under an internal lock (LO, BL)', 'caller-side execution holds the token (TOK-exec)', 'caller-side parking: wake latched while polling, consumed before parking, unpark + re-check loop (PARK-wake, ORD-C06-drain)'],
      ['termination of the operations ahead; OS fairness', '"from inside a job of a different Desync" is derived from BL (no internal lock is held while a job runs)'],
-     [(RP.tr_defer, None, ['sync']), (RL.cv, None), (RQ.qd_wake_blocked, None), (RQ.qd_run, None), (RP.tr_roles, None), (RP.tr_dead, None), (RO.free_delegates, None, ['sync|']), (RG.c15_reap, None), (RO.c08, None, ['result-after-scheduler']), (RO.c04_steal, None), (RO.c04_stop, None), (RO.c04_result, None), (RU.ua_wait, None), (RL.lo, None), (RL.bl, None), (RL.lock_classes, None), (RP.tok_exec, None), (RP.tok_resched, None),
+     [(RP.tr_defer, None, ['sync']), (RL.cv, None), (RQ.qd_wake_blocked, None), (RQ.qd_run, None), (RP.tr_roles, None), (RP.tr_dead, None), (RO.free_delegates, None, ['sync|']), (RG.c15_reap, None), (RO.c08, None, ['result-after-scheduler']), (RO.c04_steal, None), (RO.c04_stop, None), (RO.c04_result, None), (RO.c04_private, None), (RU.ua_wait, None), (RL.lo, None), (RL.bl, None), (RL.lock_classes, None), (RP.tok_exec, None), (RP.tok_resched, None),
       (RP.park_wake, None, ['WakeThread', 'run_one_job_now']), (RO.c06_drain, None, ['run_one_job_now']), (RE.eo, None, ['^Scheduler::sync', '^<Scheduler::sync', '^UnsafeJob', '^<UnsafeJob', '^SchedulerCore::reschedule_queue', '^<SchedulerCore::reschedule_queue', '^JobQueue::run_one_job_now', '^<JobQueue::run_one_job_now', '^sync|']), (RP.tr_base, None, ['^Scheduler::sync', '^<Scheduler::sync', '^SchedulerCore::claim_pending_queue', '^<SchedulerCore::claim_pending_queue', '^SchedulerCore::reschedule_queue', '^<SchedulerCore::reschedule_queue', '^JobQueue::run_one_job_now', '^<JobQueue::run_one_job_now', '^WakeThread', '^<WakeThread'])] + G_CORE)
 
 prop('C05', COMMON +
@@ -156,7 +156,7 @@ prop('C05', COMMON +
      ['drop queues a final sync job that frees the value (ORD-C05-drop)', 'freed only there; Desync/DataRef not duplicable (UA-free)', 'pointer used only in jobs of the same queue (UA-confine)',
       'final job ordered after queued work: all of C02\'s rules (ORD-C02-append, QD-queue, TR-immediate, TOK-requeue, PA-excl)', 'the final sync waits for its job (UA-wait)', 'pipes cannot schedule on a dead object (ORD-C05-weak)'],
      ['absence of use-after-free on every interleaving as such', '"blocks until" is derived from the C04 rules'],
-     [(RO.c05_drop, None), (RU.ua_free, None), (RU.ua_confine, None), (RO.c05_weak, None), (RU.ua_wait, None), (RO.c04_stop, None), (RE.eo, None, ['^Desync as core::ops::drop::Drop>', '^<Desync as core::ops::drop::Drop>', '^Scheduler::sync', '^<Scheduler::sync']), (RP.tr_base, None, ['^Scheduler::sync', '^<Scheduler::sync']), (RO.c08, None, ['result-after-scheduler'])] + G_ORDER + G_CORE)
+     [(RO.c05_drop, None), (RU.ua_free, None), (RU.ua_confine, None), (RO.c05_weak, None), (RU.ua_wait, None), (RO.c04_stop, None), (RO.c04_private, None), (RE.eo, None, ['^Desync as core::ops::drop::Drop>', '^<Desync as core::ops::drop::Drop>', '^Scheduler::sync', '^<Scheduler::sync']), (RP.tr_base, None, ['^Scheduler::sync', '^<Scheduler::sync']), (RO.c08, None, ['result-after-scheduler'])] + G_ORDER + G_CORE)
 
 prop('C06', COMMON +
      'Decided: from every parked configuration reachable in the extracted protocol, wakers and claimers alone lead back to a running queue (PA-wake); each waker calls the resume action that matches the parked state it finds, '
